@@ -40,26 +40,21 @@ Definition w_good_imp : string := "spiffe://cluster.local/ns/foo/sa/bar".
 Definition issued_sans (r : result) : option (list san) :=
   match r with RIssued leaf _ => Some (c_sans leaf) | _ => None end.
 
-(* witness 1: an authorised impersonation whose trust-domain segment carries commas *)
-Lemma witness_impersonation :
+(* witness 1 (regression of fixed finding C09-K4-comma-identity-extra-sans): an authorised
+   impersonation whose trust-domain segment carries commas is now a certificate-generation error *)
+Lemma witness_impersonation_comma_refused :
   authenticate_impersonation w_world "c1" (kinfo w_zt) w_evil_imp = true /\
-  (exists id, parse_identity w_evil_imp = Some id /\ sp_ns id = "foo" /\ sp_sa id = "bar") /\
-  issued_sans (create_certificate no_ip w_env [{| ar_caller := Some w_zt; ar_err := false |}] (Some w_world) w_cfg
-                 (w_rq w_evil_imp) w_now)
-  = Some [SURI "spiffe://cluster.local"; SDNS "istiod.istio-system.svc"; SDNS "x/ns/foo/sa/bar"].
-Proof.
-  split; [vm_compute; reflexivity|]. split; [|vm_compute; reflexivity].
-  eexists. split; [vm_compute; reflexivity|]. split; reflexivity.
-Qed.
+  create_certificate no_ip w_env [{| ar_caller := Some w_zt; ar_err := false |}] (Some w_world) w_cfg
+                 (w_rq w_evil_imp) w_now = RSignError ECertGen.
+Proof. split; vm_compute; reflexivity. Qed.
 
-(* witness 2: an authenticated identity containing a comma *)
+(* witness 2: an authenticated identity containing a comma is refused as well *)
 Definition w_comma_caller : caller :=
   {| identities := ["spiffe://cluster.local/ns/foo/sa/bar,istiod.istio-system.svc"]; kinfo := no_kube |}.
 
-Lemma witness_comma_identity :
-  issued_sans (create_certificate no_ip w_env [{| ar_caller := Some w_comma_caller; ar_err := false |}] None w_cfg
-                 (w_rq "") w_now)
-  = Some [SURI "spiffe://cluster.local/ns/foo/sa/bar"; SDNS "istiod.istio-system.svc"].
+Lemma witness_comma_identity_refused :
+  create_certificate no_ip w_env [{| ar_caller := Some w_comma_caller; ar_err := false |}] None w_cfg
+                 (w_rq "") w_now = RSignError ECertGen.
 Proof. vm_compute. reflexivity. Qed.
 
 (* witness 3: the comma-free impersonation is issued with exactly that identity *)
@@ -76,45 +71,39 @@ Lemma witness_empty_identity :
   = Some [SDNS ""].
 Proof. vm_compute. reflexivity. Qed.
 
-(* refutation of "SANs are exactly the selected identities" at full strength *)
-Lemma sans_exact_refuted :
-  exists ipf e rs na cfg rq now leaf n u,
-    create_certificate ipf e rs na cfg rq now = RIssued leaf n /\
-    authenticate e rs = Some u /\ imp_of rq = EmptyString /\
-    c_sans leaf <> map (classify ipf) (identities u).
-Proof.
-  exists no_ip, w_env, [{| ar_caller := Some w_comma_caller; ar_err := false |}], None, w_cfg, (w_rq ""), w_now.
-  eexists. eexists. exists w_comma_caller.
-  split; [vm_compute; reflexivity|]. split; [reflexivity|]. split; [reflexivity|].
-  vm_compute. discriminate.
-Qed.
+(* ---- open finding C09-impersonation-trust-domain-unchecked *)
 
-(* refutation of "request metadata cannot add an identity": the justified impersonation of
-   (foo, bar) on the caller's node yields a certificate that also names istiod's DNS name *)
-Lemma impersonation_adds_identity_refuted :
-  exists ipf e rs a cfg rq now leaf n u id,
+(* the impersonated identity lies in the trust domain of one of the caller's authenticated SPIFFE identities *)
+Definition in_caller_trust_domain (u : caller) (imp : string) : Prop :=
+  exists id cid s, parse_identity imp = Some id /\ In s (identities u) /\
+                   parse_identity s = Some cid /\ sp_td cid = sp_td id.
+
+Definition w_foreign_imp : string := "spiffe://other.td/ns/foo/sa/bar".
+
+(* witness 5: the trust-domain segment of the impersonated identity is chosen by the request *)
+Lemma witness_foreign_trust_domain :
+  issued_sans (create_certificate no_ip w_env [{| ar_caller := Some w_zt; ar_err := false |}] (Some w_world) w_cfg
+                 (w_rq w_foreign_imp) w_now) = Some [SURI w_foreign_imp].
+Proof. vm_compute. reflexivity. Qed.
+
+Lemma impersonation_trust_domain_refuted :
+  exists ipf e rs a cfg rq now leaf n u,
     create_certificate ipf e rs (Some a) cfg rq now = RIssued leaf n /\
     authenticate e rs = Some u /\
     impersonation_justified a (extract_cluster_id (rq_cluster_ids rq)) (kinfo u) (imp_of rq) /\
-    parse_identity (imp_of rq) = Some id /\ sp_ns id = "foo" /\ sp_sa id = "bar" /\
-    In (SDNS "istiod.istio-system.svc") (c_sans leaf) /\
-    ~ In "istiod.istio-system.svc" (identities u) /\
-    List.length (c_sans leaf) = 3.
+    c_sans leaf = [SURI "spiffe://other.td/ns/foo/sa/bar"] /\
+    identities u = ["spiffe://cluster.local/ns/istio-system/sa/ztunnel"] /\
+    ~ in_caller_trust_domain u (imp_of rq).
 Proof.
-  exists no_ip, w_env, [{| ar_caller := Some w_zt; ar_err := false |}], w_world, w_cfg, (w_rq w_evil_imp), w_now.
-  eexists. eexists. exists w_zt. eexists.
+  exists no_ip, w_env, [{| ar_caller := Some w_zt; ar_err := false |}], w_world, w_cfg, (w_rq w_foreign_imp), w_now.
+  eexists. eexists. exists w_zt.
   split; [vm_compute; reflexivity|]. split; [reflexivity|]. split.
   { apply authenticate_impersonation_sound. vm_compute. reflexivity. }
-  split; [vm_compute; reflexivity|]. split; [reflexivity|]. split; [reflexivity|].
-  split; [cbn; right; left; reflexivity|]. split; [|reflexivity].
-  cbn. intros [H|[]]. discriminate.
+  split; [reflexivity|]. split; [reflexivity|].
+  intros (id & cid & s & Hp & Hin & Hc & Heq).
+  vm_compute in Hp. inversion Hp; subst. destruct Hin as [<-|[]].
+  vm_compute in Hc. inversion Hc; subst. cbn in Heq. discriminate.
 Qed.
-
-Lemma oidc_total_refuted : exists td auds sub aud, oidc_authenticate td auds sub aud = APanic.
-Proof. exists "cluster.local", ["istio-ca"], "system:serviceaccount", (AudList ["x"]). vm_compute. reflexivity. Qed.
-
-Lemma xfcc_total_refuted : exists a parsed, xfcc_authenticate false false a parsed = APanic.
-Proof. exists (AddrHost false false []), None. reflexivity. Qed.
 
 (* hypotheses are satisfiable *)
 Lemma sat_issued_exact :
